@@ -19,6 +19,12 @@ use parking_lot::RwLockWriteGuard;
 const SHARD_SHIFT: usize = 6;
 const SHARDS: usize = 1 << SHARD_SHIFT;
 
+/// Verification hook: (SHARD_SHIFT, SHARDS).
+#[cfg(feature = "isographlabs_isograph_verif")]
+pub fn verif_shard_consts() -> (usize, usize) {
+    (SHARD_SHIFT, SHARDS)
+}
+
 pub struct ShardedSet<T, S = RandomState> {
     build_hasher: S,
     shards: [RwLock<RawTable<T>>; SHARDS],
@@ -153,24 +159,38 @@ impl<T: Eq + Hash, S: BuildHasher> ShardedSet<T, S> {
         Q: ?Sized + Hash + Eq,
     {
         let (hash, shard) = self.hash_and_shard(q);
+        #[cfg(feature = "isographlabs_isograph_verif")]
+        let verif_shard = unsafe { (shard as *const RwLock<RawTable<T>>).offset_from(self.shards.as_ptr()) } as u64;
+        #[cfg(feature = "isographlabs_isograph_verif")]
+        crate::verif_hook::yield_point("set.try_write", verif_shard);
         // Assume load is low and try to take lock for writing.
         // We don't faff around with upgradability right now.
         let shard = if let Some(write_lock) = shard.try_write() {
             write_lock
         } else {
+            #[cfg(feature = "isographlabs_isograph_verif")]
+            crate::verif_hook::before_lock("set.read", verif_shard, || shard.is_locked_exclusive());
             // Write contention.  Try reading first to see if the entry already exists.
             if let Some(t) = shard.read().get(hash, |other| q == other.borrow()) {
+                #[cfg(feature = "isographlabs_isograph_verif")]
+                crate::verif_hook::yield_point("set.read_found", verif_shard);
                 // Already exists.
                 return Ok(t.clone());
             }
+            #[cfg(feature = "isographlabs_isograph_verif")]
+            crate::verif_hook::before_lock("set.write", verif_shard, || shard.is_locked());
             // Unconditionally write lock.
             shard.write()
         };
+        #[cfg(feature = "isographlabs_isograph_verif")]
+        crate::verif_hook::yield_point("set.check", verif_shard);
         // Now check for the data.  We need to do this even if we already
         // checked in the write contention case above.  We don't use an
         // upgradable read lock because those are exclusive from one another
         // just like write locks.
         if let Some(t) = shard.get(hash, |other| q == other.borrow()) {
+            #[cfg(feature = "isographlabs_isograph_verif")]
+            crate::verif_hook::yield_point("set.check_found", verif_shard);
             return Ok(t.clone());
         }
         Err(InsertLock {
@@ -187,6 +207,10 @@ impl<T: Eq + Hash, S: BuildHasher> ShardedSet<T, S> {
         Q: ?Sized + Hash + Eq,
     {
         let (hash, shard) = self.hash_and_shard(q);
+        #[cfg(feature = "isographlabs_isograph_verif")]
+        let verif_shard = unsafe { (shard as *const RwLock<RawTable<T>>).offset_from(self.shards.as_ptr()) } as u64;
+        #[cfg(feature = "isographlabs_isograph_verif")]
+        crate::verif_hook::before_lock("set.get", verif_shard, || shard.is_locked_exclusive());
         shard
             .read()
             .get(hash, |other| q == other.borrow())
